@@ -59,6 +59,9 @@ type Prog struct {
 	wrapped       map[*ssa.Function]bool // function literals run at once by a lock-wrapper helper
 	propReports   map[string]*Report
 	e11c          *e11
+	e12c          *e12Result
+	e12t          map[*types.Var]string
+	e12f          *e12Flow
 	importing     bool
 	onceBody      map[*ssa.Function]*ssa.Function
 	byName        map[string]*ssa.Function
